@@ -78,6 +78,11 @@ type Net struct {
 	MaxHold time.Duration
 	heldSeq int
 
+	// MaxEvents bounds the tap (default 20000 emissions): beyond it nothing is delivered any more
+	// and Stormed is set, so that a ping-pong that never lets virtual time advance ends.
+	MaxEvents int
+	Stormed   bool
+
 	counts   map[string]int
 	held     map[string][]heldDgram
 	watchers []*watcher
@@ -262,6 +267,16 @@ func (n *Net) send(from Addr, to string, data []byte) {
 	}
 	ev := Event{T: time.Since(n.start), From: key, To: to, Dir: dir, Idx: idx, Data: data, Verdict: "pass", Src: key}
 	payloads := [][]byte{data}
+	maxEv := n.MaxEvents
+	if maxEv <= 0 {
+		maxEv = 20000
+	}
+	if len(n.Tap) >= maxEv {
+		n.Stormed = true
+		n.mu.Unlock()
+
+		return
+	}
 	if n.Blocked[key] {
 		ev.Verdict = "blocked"
 		payloads = nil
@@ -534,4 +549,12 @@ func (e *Endpoint) isDetached() bool {
 	defer e.net.mu.Unlock()
 
 	return e.detached
+}
+
+// HasStormed reports whether the emission bound was hit.
+func (n *Net) HasStormed() bool {
+	n.mu.Lock()
+	defer n.mu.Unlock()
+
+	return n.Stormed
 }
